@@ -29,11 +29,11 @@ func skiFromCert(leaf *x509.Certificate) (string, bool, any) {
 
 func pickKey(r *vh.Rng) *key {
 	switch x := r.Intn(100); {
-	case x < 70:
+	case x < 72:
 		return ecKey(r, elliptic.P256(), "ecdsa-p256")
-	case x < 80:
+	case x < 82:
 		return ecKey(r, elliptic.P384(), "ecdsa-p384")
-	case x < 92:
+	case x < 96:
 		return edKey(r)
 	default:
 		return rsaKey()
